@@ -2,15 +2,19 @@
 C40 — Interval maps match a naive model  (internal/interval: Intersect, Nesting).
 
 Model: PCV.Model.Interval (Go slices over a heap; the `Insert` loop as written).
-`asIs` is the code in /repo; `patched` applies the two proposed one-line fixes.
+`asIs` is the code as first examined; `current` is the code in /repo now (commit 406dde02 applied
+the clip patch, fixing the shared-backing-array defect); `patched` adds the gap patch as well.
 
-The full property is FALSE of the code as it is, in four independent ways (all kernel-checked
-below, and all reproduced on the real code by the correspondence run):
+The full property was FALSE of the code as first examined in four independent ways (all
+kernel-checked below, all reproduced on the real code by the correspondence run); the second
+is FIXED by 406dde02, the other three are recorded known findings and still hold of `current`:
   * `Intersect.Insert` over two ADJACENT entries overwrites the left one with an empty interval;
   * `Intersect.Insert` appends in place to a backing array shared with a sibling entry;
   * `Nesting.Insert` overwrites an interval that has the same end;
   * `Nesting.Insert` puts partially overlapping intervals into one set.
-Proved instead, for every history (induction, no bounds):
+Proved, for every history (induction, no bounds):
+  * the CURRENT code satisfies the Intersect half on every history in which no insert spans two
+    adjacent entries (`intersect_current_partial`; the aliasing clause is no longer needed);
   * the PATCHED `Intersect` and the PATCHED `Nesting` satisfy the full statement;
   * the code AS IT IS satisfies the Intersect half on every history whose steps avoid the two
     triggers (`StepSafe`: no insert spans two adjacent entries; no in-place append lands inside
@@ -220,6 +224,30 @@ theorem intersect_asIs_partial (h : Hist) (hv : ValidHist h) (hs : SafeRun asIs 
   intersectOK_of_conc asIs h hv
     (by simpa using conc_run asIs h {} [] conc_init (by simpa using hv) hs)
 
+
+/-! ### the code now in /repo (`current`: clip patch applied by 406dde02, gap patch not) -/
+
+/-- no step of the history spans two adjacent entries of the map it is applied to -/
+def GapSafeRun (cfg : Cfg) (m : IMap) : Hist → Prop
+  | [] => True
+  | (a, b, v) :: rest => GapOK cfg.fixGap a b m.tree ∧ GapSafeRun cfg (m.insert cfg a b v).1 rest
+
+theorem safeRun_of_gapSafeRun (cfg : Cfg) (hc : cfg.clipFix = true) :
+    ∀ (h : Hist) (m : IMap), GapSafeRun cfg m h → SafeRun cfg m h
+  | [], _, _ => trivial
+  | (_, _, _) :: rest, _, hg =>
+    ⟨⟨hg.1, pairwise_of_all _ (fun _ _ => ⟨Or.inl hc, Or.inl hc⟩) _⟩,
+     safeRun_of_gapSafeRun cfg hc rest _ hg.2⟩
+
+/-- **C40 (Intersect), partial, for the code now in /repo**: entries sorted and disjoint,
+    `Get` = the naive values in insertion order, `disjoint` flag right, on every history in
+    which no insert spans two adjacent entries.  Slice aliasing no longer matters. -/
+theorem intersect_current_partial (h : Hist) (hv : ValidHist h) (hs : GapSafeRun current {} h) :
+    IntersectOK current h := by
+  have hsafe : SafeRun current {} h := safeRun_of_gapSafeRun current rfl h {} hs
+  exact intersectOK_of_conc current h hv
+    (by simpa using conc_run current h {} [] conc_init (by simpa using hv) hsafe)
+
 /-! ## Intersect: the full statement is false of the code as it is -/
 
 instance (h : Hist) : Decidable (ValidHist h) := by
@@ -238,6 +266,14 @@ def decSafeRun (cfg : Cfg) : (m : IMap) → (h : Hist) → Decidable (SafeRun cf
 
 instance (cfg : Cfg) (m : IMap) (h : Hist) : Decidable (SafeRun cfg m h) := decSafeRun cfg m h
 
+def decGapSafeRun (cfg : Cfg) : (m : IMap) → (h : Hist) → Decidable (GapSafeRun cfg m h)
+  | _, [] => isTrue trivial
+  | m, (a, b, v) :: rest =>
+    @instDecidableAnd _ _ (by unfold GapOK; exact inferInstance)
+      (decGapSafeRun cfg (m.insert cfg a b v).1 rest)
+
+instance (cfg : Cfg) (m : IMap) (h : Hist) : Decidable (GapSafeRun cfg m h) := decGapSafeRun cfg m h
+
 /-- Defect 1 (adjacent entries).  `[0,0]`, `[0,1]`, `[0,1]`: the third insert meets the adjacent
     entries `[0,0]` and `[1,1]`; the "gap" `[1,0]` it stores under key 0 REPLACES `[0,0]`.
     `Get(0)` then returns nothing instead of `[1,2,3]`.  Also with the clip patch alone. -/
@@ -248,6 +284,12 @@ theorem witnessAdjacent_get :
     (IMap.run asIs {} witnessAdjacent).entries = [⟨1, 0, [3]⟩, ⟨1, 1, [2, 3]⟩] := by decide
 
 theorem intersect_asIs_refuted_adjacent : ¬ IntersectCorrect asIs := by
+  intro h
+  have := (h witnessAdjacent (by decide)).2.1 0
+  revert this; decide
+
+/-- … and it is still there in the code now in /repo (known finding). -/
+theorem intersect_current_refuted : ¬ IntersectCorrect current := by
   intro h
   have := (h witnessAdjacent (by decide)).2.1 0
   revert this; decide
@@ -277,6 +319,23 @@ theorem intersect_gapOnly_refuted : ¬ IntersectCorrect ⟨true, false⟩ := by
   intro h
   have := (h witnessAlias (by decide)).2.1 7
   revert this; decide
+
+/-- fixed by 406dde02: on the aliasing witness the code now in /repo is right (an instance of
+    `intersect_current_partial`, whose hypothesis holds here: non-vacuity) -/
+theorem witnessAlias_current : GapSafeRun current {} witnessAlias ∧ IntersectOK current witnessAlias := by
+  have h : GapSafeRun current {} witnessAlias := by decide
+  exact ⟨h, intersect_current_partial witnessAlias (by decide) h⟩
+
+-- a longer history satisfying the hypothesis: splits at both ends, gaps, a depth-7 stack, inserts
+-- over both parts of a split stack (the shape that used to corrupt values)
+example : GapSafeRun current {} [(0, 9, 1), (3, 5, 2), (20, 30, 3), (4, 4, 4), (-5, 0, 5), (12, 40, 6),
+      (50, 59, 7), (50, 59, 8), (50, 59, 9), (50, 59, 10), (50, 59, 11), (53, 55, 12), (54, 54, 13),
+      (50, 51, 14), (58, 59, 15)] := by
+  decide
+
+-- sharp: the hypothesis fails exactly at the third insert of `witnessAdjacent`
+example : GapSafeRun current {} [(0, 0, 1), (0, 1, 2)] ∧ ¬ GapSafeRun current {} witnessAdjacent := by
+  decide
 
 /-- the `disjoint` result is wrong too once an entry has been lost: after `witnessAdjacent`,
     inserting `[0,0]` reports "disjoint" although three inserted intervals contain 0 -/
@@ -653,18 +712,20 @@ theorem nesting_patched_correct (h : Hist) (hv : ValidHist h) : NestingOKP h := 
 
 /-! ## C40 -/
 
-/-- The property as stated, of the code as it is. -/
-def C40_full : Prop := IntersectCorrect asIs ∧ NestingCorrect
+/-- The property as stated, of the code now in /repo. -/
+def C40_full : Prop := IntersectCorrect current ∧ NestingCorrect
 
-theorem C40_full_refuted : ¬ C40_full := fun h => intersect_asIs_refuted_adjacent h.1
+theorem C40_full_refuted : ¬ C40_full := fun h => intersect_current_refuted h.1
 
 /-- What is proved instead (see the individual theorems). -/
 theorem C40_partial :
     IntersectCorrect patched ∧ (∀ h, ValidHist h → NestingOKP h) ∧
+    (∀ h, ValidHist h → GapSafeRun current {} h → IntersectOK current h) ∧
     (∀ h, ValidHist h → SafeRun asIs {} h → IntersectOK asIs h) ∧
     (∀ h, ValidHist h → ShortestFirst h → NestingOK h) ∧
     (∀ h, DistinctEnds h → ((Nest.run {} h).observe.flatten).Perm (h.map toE)) :=
-  ⟨intersect_patched_correct, nesting_patched_correct, intersect_asIs_partial,
+  ⟨intersect_patched_correct, nesting_patched_correct, intersect_current_partial,
+   intersect_asIs_partial,
    fun h hv hs => (nesting_shortest_first_partial h hv hs).1,
    nesting_keeps_all_of_distinct_ends⟩
 
@@ -676,7 +737,10 @@ example : ShortestFirst [(4, 4, 1), (0, 1, 2), (1, 3, 3), (0, 9, 4)] ∧
 end PCV.Props.C40
 
 #print axioms PCV.Props.C40.intersect_patched_correct
+#print axioms PCV.Props.C40.intersect_current_partial
 #print axioms PCV.Props.C40.intersect_asIs_partial
+#print axioms PCV.Props.C40.intersect_current_refuted
+#print axioms PCV.Props.C40.witnessAlias_current
 #print axioms PCV.Props.C40.intersect_asIs_refuted_adjacent
 #print axioms PCV.Props.C40.intersect_asIs_refuted_alias
 #print axioms PCV.Props.C40.intersect_gapOnly_refuted
